@@ -14,7 +14,7 @@ import JugModel.Driver.KALock
     Imports the executable models only (never `Props`), so it still builds when a proof breaks. -/
 open Lean Jug.Drv
 
-def handlers : List (String → Json → Option Json) := [handleMR, handleOpt, handleHash, handleExec, handleLock, handleStore, handleGraph, handleViews, handleLoader, handleLoop, handleMemo, handleKALock, handleKARun]
+def handlers : List (String → Json → Option Json) := [handleMR, handleOpt, handleHash, handleExec, handleLock, handleStore, handleGraph, handleViews, handleLoader, handleLoop, handleMemo, handleKALock, handleKARun, handleCanLoadRun]
 
 def dispatch (j : Json) : Json :=
   let op := getStr j "op"
